@@ -148,6 +148,50 @@ func (c *call) HasUndefined() bool {
 		if strings.Index(c.Args[i].String(), "invalid type") >= 0 {
 			return true
 		}
+		if hasInvalidType(c.Args[i], make(map[*types.Named]bool)) {
+			return true
+		}
+	}
+	return false
+}
+
+// hasInvalidType returns whether an invalid type, for example the type of a field that is declared with an undefined type,
+// is part of the type or of the definition of one of the named types it refers to.
+// A named type is printed as its name, so String does not show an invalid type inside its definition.
+func hasInvalidType(typ types.Type, seen map[*types.Named]bool) bool {
+	switch t := types.Unalias(typ).(type) {
+	case *types.Basic:
+		return t.Kind() == types.Invalid
+	case *types.Named:
+		if seen[t] {
+			return false
+		}
+		seen[t] = true
+		return hasInvalidType(t.Underlying(), seen)
+	case *types.Pointer:
+		return hasInvalidType(t.Elem(), seen)
+	case *types.Slice:
+		return hasInvalidType(t.Elem(), seen)
+	case *types.Array:
+		return hasInvalidType(t.Elem(), seen)
+	case *types.Chan:
+		return hasInvalidType(t.Elem(), seen)
+	case *types.Map:
+		return hasInvalidType(t.Key(), seen) || hasInvalidType(t.Elem(), seen)
+	case *types.Struct:
+		for i := 0; i < t.NumFields(); i++ {
+			if hasInvalidType(t.Field(i).Type(), seen) {
+				return true
+			}
+		}
+	case *types.Tuple:
+		for i := 0; i < t.Len(); i++ {
+			if hasInvalidType(t.At(i).Type(), seen) {
+				return true
+			}
+		}
+	case *types.Signature:
+		return hasInvalidType(t.Params(), seen) || hasInvalidType(t.Results(), seen)
 	}
 	return false
 }
